@@ -539,7 +539,7 @@ func runScenario(sc *Scenario, r *zsimrt.Rand, replay []zsimrt.Decision) *Outcom
 	docPool = map[string][]byte{}
 	for t := range sc.Tasks {
 		for i := range sc.Tasks[t] {
-			if op := &sc.Tasks[t][i]; op.Kind == KUnmarshal {
+			if op := &sc.Tasks[t][i]; op.Kind == KUnmarshal || op.Kind == KMisc {
 				if _, ok := docPool[op.Query]; !ok {
 					docPool[op.Query] = []byte(op.Query)
 				}
